@@ -53,6 +53,11 @@ DctValues(dct) == IF Wrong THEN WrongValues(dct) ELSE RightValues(dct)
 RECURSIVE DopValues(_), Assignments(_, _)
 ParamValues(p) ==
     CASE p.k \in {"VALUE", "SYSTEM"} -> DopValues(p.dop) \cup {Missing}
+      [] p.k = "TABLE-KEY" -> {Missing} \cup {Str(p.dop.rows[i].n) : i \in 1..Len(p.dop.rows)} \cup (IF Wrong THEN {Str("nosuchrow"), Bad("float"), Bad("list")} ELSE {})
+      [] p.k = "TABLE-STRUCT" -> {Missing} \cup
+             UNION {IF p.dop.rows[i].st.k = "none" THEN (IF Wrong THEN {[t |-> "pair", a |-> p.dop.rows[i].n, b |-> Missing]} ELSE {})
+                    ELSE {[t |-> "pair", a |-> p.dop.rows[i].n, b |-> x] : x \in DopValues(p.dop.rows[i].st)} : i \in 1..Len(p.dop.rows)}
+             \cup (IF Wrong THEN {[t |-> "pair", a |-> "nosuchrow", b |-> Missing], Bad("str"), Bad("list")} ELSE {})
       [] OTHER -> {Missing}
 \* all assignments: each settable parameter supplied with a value of its alphabet or omitted
 Assignments(ps, i) ==
@@ -94,6 +99,14 @@ CanonDict(ps, d) ==
         LET p == ps[i]
             v == DictGet(d, p.n) IN
         <<p.n, CASE p.k \in {"VALUE", "SYSTEM"} -> CanonDop(p.dop, IF IsMissing(v) THEN p.dv ELSE v)
+                 [] p.k = "TABLE-KEY" ->    \* the row named explicitly, or by the TABLE-STRUCT that uses the key
+                      LET users == {j \in 1..Len(ps) : ps[j].k = "TABLE-STRUCT" /\ ps[j].sys = p.n /\ ~IsMissing(DictGet(d, ps[j].n))} IN
+                      IF ~IsMissing(v) THEN v
+                      ELSE IF users # {} THEN Str(DictGet(d, ps[CHOOSE j \in users : TRUE].n).a) ELSE Missing
+                 [] p.k = "TABLE-STRUCT" ->
+                      IF IsMissing(v) \/ v.t # "pair" \/ RowsNamed(p.dop, v.a) = {} THEN Missing
+                      ELSE LET row == p.dop.rows[CHOOSE i2 \in RowsNamed(p.dop, v.a) : TRUE] IN
+                           [t |-> "pair", a |-> v.a, b |-> IF row.st.k = "none" THEN Missing ELSE CanonDop(row.st, v.b)]
                  [] p.k = "CODED-CONST" -> CanonAtomic(p.dct, p.cv, p.dct.bits)
                  [] p.k = "PHYS-CONST" -> CanonDop(p.dop, p.cv)
                  [] OTHER -> Missing>>])
